@@ -808,7 +808,11 @@ pub fn run_case_with(case: &Case, agreement: bool) -> CaseOut {
             // an abandoned READ: select, write the first fragment, never confirm, reset (what the session does on a
             // confirm timeout, a new request or a disconnect)
             let req = Fragment::request(0, func::READ, encode_request(&case.pre)).encode();
-            if let Some(parsed) = ParsedFragment::parse(ParseOptions::default(), &req).ok().and_then(|p| p.to_request().ok()).and_then(|r| r.objects.ok()) {
+            if let Some(parsed) = ParsedFragment::parse(ParseOptions::default(), &req)
+                .ok()
+                .and_then(|p| p.to_request().ok())
+                .and_then(|r| r.objects.ok())
+            {
                 let _ = handle.select(&parsed);
                 let mut buf = vec![0u8; objsize];
                 let mut cursor = scursor::WriteCursor::new(&mut buf);
@@ -849,7 +853,13 @@ pub fn run_case_with(case: &Case, agreement: bool) -> CaseOut {
                 for u in &case.late {
                     let key = order[(u.point as usize * order.len()) >> 16];
                     let rec = rec_of(key.0, u);
-                    let _ = apply(db, key.0, key.1, &rec, UpdateOptions::new(true, EventMode::Suppress));
+                    let _ = apply(
+                        db,
+                        key.0,
+                        key.1,
+                        &rec,
+                        UpdateOptions::new(true, EventMode::Suppress),
+                    );
                     later.entry(key).or_default().push(rec);
                 }
             });
@@ -1085,7 +1095,11 @@ pub fn run_case_with(case: &Case, agreement: bool) -> CaseOut {
             let mut verdict = carry_check(*ty, *g, *v, rec, item);
             if verdict.is_err() {
                 if let Some(l) = later.get(&key) {
-                    if let Some(ok) = l.iter().map(|r| carry_check(*ty, *g, *v, r, item)).find(|r| r.is_ok()) {
+                    if let Some(ok) = l
+                        .iter()
+                        .map(|r| carry_check(*ty, *g, *v, r, item))
+                        .find(|r| r.is_ok())
+                    {
                         verdict = ok;
                     }
                 }
